@@ -119,7 +119,8 @@ def evaluate(job):
     from mbi import Domain, FactoredInference
     M.deterministic_eigsh()
     attrs, sizes, struct, prob = problem_for(job)
-    eng = FactoredInference(Domain(attrs, sizes), iters=job['iters'])
+    # every fifth structure runs with the optional progress logger switched on (it must only observe)
+    eng = FactoredInference(Domain(attrs, sizes), iters=job['iters'], log=(job['dom'] == 3 and job['si'] % 5 == 0))
     with M.quiet():
         if job.get('prior'):
             # the engine has been used before on two other structures (estimation is history-free without warm start, see C13)
